@@ -20,6 +20,7 @@ RULES = {
     "R16.5": "Network::connect compares the element counts of the two layers' inputs, indexing layers[infrom] and "
              "layers[into] respectively, and rejects unequal counts",
 }
+RULES["R16.6"] = "tensors crossing a connection are re-shaped by Tensor::reshape / flatten: count assertion first, row-major rebuild (R14.1/R14.2 re-run under this property)"
 RULES["R16.3"] += " | a Mean arm written as add + division must divide by the number of tensors combined"
 RULES["R16.1"] += " | guards are taken from the path conditions of the insert (panicking guard clauses, else-if chains, enclosing branches; negations and disjunctions split into atoms)"
 ASSUMPTIONS = ["connections are registered through Network::connect (the map is a pub field; direct mutation is outside the property)",
@@ -313,7 +314,21 @@ def r5(ctx):
     ctx.check("R16.5", "counts-compared", found, "element-counts-not-compared", c.loc(fn), "assert_eq!(from, to)")
 
 
+def reshape_helpers(ctx, rule):
+    """values cross a skip / loop connection through Tensor::reshape / flatten: both keep the row-major element sequence (C14's R14.1/R14.2 re-run)"""
+    from . import c14
+    sub = type(ctx)(ctx.prop, ctx.facts)
+    sub.guard("R14.1", "reshape", c14.r1_r2_reshape, sub)
+    sub.guard("R14.2", "flatten", c14.r2_flatten, sub)
+    bad = [o for o in sub.obligations if o["status"] != "ok"]
+    for o in bad:
+        ctx.bad(rule, "reshape:" + o["instance"], o["key"].split("/", 3)[-1], o["where"], o["detail"])
+    ctx.check(rule, "reshape-is-row-major", not bad and len(sub.obligations) >= 9, "reshape-broken", "src/tensor.rs",
+              "%d facts: reshape asserts the element count and rebuilds in row-major order; flatten / get_flat / get_triple are row-major" % len(sub.obligations))
+
+
 def run(ctx):
+    ctx.guard("R16.6", "reshape", reshape_helpers, ctx, "R16.6")
     ctx.guard("R16.1", "connect", key_agreement, ctx, "R16.1", "network::Network::connect", "connect", "connect", True)
     ctx.guard("R16.2", "forward", r2, ctx)
     ctx.guard("R16.3", "forward-skip", r3, ctx)
